@@ -155,16 +155,19 @@ pub fn msg_of(seed: u64, len: usize, content: usize) -> Vec<u8> {
 }
 
 pub fn msg_alphabet(seed: u64, full: bool) -> MsgAlpha {
+    // the large band (16 KiB, 64 KiB, 2 MiB boundaries: LEB128 widths, u16 / u32 length arithmetic) is in both tiers
     let lens: Vec<usize> = if full {
-        vec![0, 1, 31, 32, 33, 127, 128, 129, 255, 256, 257, 4096, 16383, 16384, 65536]
+        vec![0, 1, 31, 32, 33, 127, 128, 129, 255, 256, 257, 4096, 16383, 16384, 65535, 65536, 65537, 2097151, 2097152, 2097153, 16777216]
     } else {
-        vec![0, 1, 31, 32, 33, 127, 128, 129, 255, 256, 257, 4096]
+        vec![0, 1, 31, 32, 33, 127, 128, 129, 255, 256, 257, 4096, 16383, 16384, 65535, 65536, 65537, 2097152]
     };
     let mut names = vec![];
     let mut msgs = vec![];
     for l in lens {
         let contents: &[usize] = if l == 0 {
             &[0]
+        } else if l > 4096 {
+            &[3]
         } else if full || l <= 33 {
             &[0, 1, 2, 3]
         } else {
@@ -384,3 +387,93 @@ pub fn transport_sk_enum<C: Suite>(sk: &SecretKey<C>, c: Codec) -> Result<Secret
     }
     sk_from_be::<C>(&bytes).ok_or("import".to_string())
 }
+
+// ---- values moved by the library's constant time selection helpers ----------------------------------------
+
+/// `conditional_select`, `conditional_assign` and `conditional_swap` of two values of the same variant: choice 0 keeps
+/// the first, choice 1 takes the second. Returns what went wrong, if anything (a panic is reported as such).
+pub fn ct_move_check<T: subtle::ConditionallySelectable + PartialEq>(a: &T, b: &T) -> Option<String> {
+    let r = crate::engine::guard(|| {
+        use subtle::Choice;
+        let mut bad = vec![];
+        if T::conditional_select(a, b, Choice::from(0)) != *a {
+            bad.push("select(a,b,0) != a");
+        }
+        if T::conditional_select(a, b, Choice::from(1)) != *b {
+            bad.push("select(a,b,1) != b");
+        }
+        let mut x = *a;
+        x.conditional_assign(b, Choice::from(0));
+        if x != *a {
+            bad.push("assign(b,0) changed the value");
+        }
+        x.conditional_assign(b, Choice::from(1));
+        if x != *b {
+            bad.push("assign(b,1) did not take b");
+        }
+        let (mut x, mut y) = (*a, *b);
+        T::conditional_swap(&mut x, &mut y, Choice::from(0));
+        if x != *a || y != *b {
+            bad.push("swap(0) exchanged the values");
+        }
+        T::conditional_swap(&mut x, &mut y, Choice::from(1));
+        if x != *b || y != *a {
+            bad.push("swap(1) did not exchange the values");
+        }
+        bad
+    });
+    match r {
+        Ok(bad) if bad.is_empty() => None,
+        Ok(bad) => Some(bad.join("; ")),
+        Err(p) => Some(format!("PANIC {}", p)),
+    }
+}
+/// records the outcome of `ct_move_check` under `<prop>:moved-by-constant-time-selection:<type>`
+pub fn expect_ct_move<T: subtle::ConditionallySelectable + PartialEq>(o: &mut crate::engine::Obs, prop: &str, ty: &str, a: &T, b: &T) {
+    let r = ct_move_check(a, b);
+    o.expect(&format!("{}:moved-by-constant-time-selection:{}", prop, ty), r.is_none(), "choice 0 keeps the first value, choice 1 takes the second", r.as_deref().unwrap_or(""));
+}
+
+// ---- a point component replaced inside an encoding ---------------------------------------------------------
+
+/// Re-decode `v` after the compressed point `from` inside its encoding was replaced by `to` (same length):
+/// codec Bytes = the library's byte form, Bare = serde_bare, Json / JsonReader / JsonValue = the hex inside the document.
+/// Err = the decoder refused (or the component was not found, which is reported as "component-not-found").
+pub fn redecode_with_point<T>(v: &T, from: &[u8], to: &[u8], c: Codec) -> Result<T, String>
+where
+    T: Serialize + DeserializeOwned + for<'a> TryFrom<&'a [u8]>,
+    for<'a> &'a T: Into<Vec<u8>>,
+{
+    fn replace(hay: &[u8], from: &[u8], to: &[u8]) -> Option<Vec<u8>> {
+        let pos = hay.windows(from.len()).position(|w| w == from)?;
+        let mut out = hay.to_vec();
+        out[pos..pos + from.len()].copy_from_slice(to);
+        Some(out)
+    }
+    match c {
+        Codec::Bytes => {
+            let b: Vec<u8> = v.into();
+            let b = replace(&b, from, to).ok_or("component-not-found")?;
+            T::try_from(b.as_slice()).map_err(|_| "refused".to_string())
+        }
+        Codec::Bare => {
+            let b = serde_bare::to_vec(v).map_err(|e| e.to_string())?;
+            let b = replace(&b, from, to).ok_or("component-not-found")?;
+            serde_bare::from_slice(&b).map_err(|e| e.to_string())
+        }
+        _ => {
+            let j = serde_json::to_string(v).map_err(|e| e.to_string())?;
+            let (hf, ht) = (hex::encode(from), hex::encode(to));
+            if !j.contains(&hf) {
+                return Err("component-not-found".into());
+            }
+            let j = j.replacen(&hf, &ht, 1);
+            match c {
+                Codec::JsonReader => serde_json::from_reader(j.as_bytes()).map_err(|e| e.to_string()),
+                Codec::JsonValue => serde_json::from_str::<serde_json::Value>(&j).and_then(serde_json::from_value).map_err(|e| e.to_string()),
+                _ => serde_json::from_str(&j).map_err(|e| e.to_string()),
+            }
+        }
+    }
+}
+pub const DECODERS: [Codec; 5] = [Codec::Bytes, Codec::Bare, Codec::Json, Codec::JsonReader, Codec::JsonValue];
